@@ -124,7 +124,13 @@ func init() { gin.SetMode(gin.ReleaseMode) }
 
 // NewProc builds a logical process. hooks are attached to its redis client before anything uses it.
 func (w *World) NewProc(hooks ...redis.Hook) *Proc {
-	client := redis.NewClient(&redis.Options{Addr: w.MR.Addr(), MaxRetries: -1, PoolSize: 8})
+	client := redis.NewClient(&redis.Options{Addr: w.MR.Addr(), MaxRetries: -1, PoolSize: 8,
+		// in-memory transport straight into miniredis: no TCP connection per process per case
+		Dialer: func(context.Context, string, string) (net.Conn, error) {
+			c, s := memPipe()
+			w.MR.Server().ServeConn(s)
+			return c, nil
+		}})
 	for _, h := range hooks {
 		client.AddHook(h)
 	}
@@ -178,21 +184,59 @@ func (p *Proc) Dispatch(src *net.UDPAddr, payload []byte) (resp []byte, err erro
 
 // ---------------------------------------------------------------------------- canonical dump
 
-// Dump renders the raw keyspace canonically (see DESIGN.md / lean Swat4/Drv/Store.lean):
+// AddrKey orders "a.b.c.d:port" strings numerically by (ip, port); unparsable strings sort last by text.
+func AddrKey(s string) (uint64, bool) {
+	host, port, ok := strings.Cut(s, ":")
+	if !ok {
+		return 0, false
+	}
+	ip := net.ParseIP(host).To4()
+	pn, err := strconv.ParseUint(port, 10, 32)
+	if ip == nil || err != nil {
+		return 0, false
+	}
+	return (uint64(ip[0])<<24|uint64(ip[1])<<16|uint64(ip[2])<<8|uint64(ip[3]))*65536 + pn, true
+}
+
+func sortAddrs(xs []string) {
+	sort.Slice(xs, func(i, j int) bool {
+		a, oka := AddrKey(xs[i])
+		b, okb := AddrKey(xs[j])
+		if oka != okb {
+			return oka
+		}
+		if !oka || a == b {
+			return xs[i] < xs[j]
+		}
+		return a < b
+	})
+}
+
+var statusNames = []string{"new", "master", "info", "details", "details_retry", "no_details", "port", "port_retry", "no_port"}
+
+// Dump renders the raw keyspace canonically, in this fixed section order (the Lean driver renders
+// the model state in the same form, Swat4/Drv/Store.lean):
 //
-//	SV,<addr>,<queryport>,<status>,<version>,<refreshedNs|z>,<info>,<details>   servers:items, by addr string
-//	UP,<addr>,<score>   RF,<addr>,<score>   ST,<bit>,<addr>
-//	LK,<key>,<ttlms|nottl>
-//	IN,<idhex>,<ip:port>   IU,<idhex>,<score>
-//	PI,<n>,<addr>,<port>,<goal>,<retries>,<max>,<expiresNs|z>   PQ,<n>,<score>      n: rank by (score, payload)
-//	XX,<key>            any other key
+//	SV,<addr>,<queryport>,<status>,<version>,<refreshedNs|z>,<info>,<details>   servers:items, by (ip, port)
+//	UP,<addr>,<score>   RF,<addr>,<score>                                       by (ip, port)
+//	ST,<bit>,<addr>                                                             bits in ds.Members() order, then (ip, port)
+//	LK,<addr>,<ttl|nottl>
+//	IN,<idhex>,<ip:port>   IU,<idhex>,<score>                                   by id
+//	PI,<n>,<addr>,<port>,<goal>,<retries>,<max>,<expiresNs|z>   PQ,<n>,<score>  n: rank by (score, payload text)
+//	XX,<key>                                                                    any other key
 func (w *World) Dump() []string {
-	var out []string
 	mr := w.MR
 	keys := mr.Keys()
 	sort.Strings(keys)
+	has := map[string]bool{}
+	for _, k := range keys {
+		has[k] = true
+	}
 	hash := func(k string) map[string]string {
 		m := map[string]string{}
+		if !has[k] {
+			return m
+		}
 		fs, _ := mr.HKeys(k)
 		for _, f := range fs {
 			m[f] = mr.HGet(k, f)
@@ -201,6 +245,9 @@ func (w *World) Dump() []string {
 	}
 	zset := func(k string) map[string]float64 {
 		m := map[string]float64{}
+		if !has[k] {
+			return m
+		}
 		ms, _ := mr.ZMembers(k)
 		for _, x := range ms {
 			s, _ := mr.ZScore(k, x)
@@ -208,85 +255,105 @@ func (w *World) Dump() []string {
 		}
 		return m
 	}
-	sorted := func(m map[string]string) []string {
-		ks := make([]string, 0, len(m))
-		for k := range m {
-			ks = append(ks, k)
-		}
-		sort.Strings(ks)
-		return ks
-	}
 	score := func(f float64) string { return strconv.FormatInt(int64(f), 10) }
+	var out []string
+	// servers
+	items := hash("servers:items")
+	addrs := make([]string, 0, len(items))
+	for f := range items {
+		addrs = append(addrs, f)
+	}
+	sortAddrs(addrs)
+	for _, f := range addrs {
+		var s server.Server
+		if err := json.Unmarshal([]byte(items[f]), &s); err != nil {
+			out = append(out, "SV,"+f+",undecodable")
+			continue
+		}
+		out = append(out, fmt.Sprintf("SV,%s,%d,%d,%d,%s,%s,%s", f, s.QueryPort, int(s.DiscoveryStatus), s.Version,
+			canon.Time(s.RefreshedAt), canon.Of(s.Info), canon.Of(s.Details)))
+		if s.Addr.String() != f {
+			out = append(out, "SV-KEY-MISMATCH,"+f+","+s.Addr.String())
+		}
+	}
+	for _, zk := range [][2]string{{"servers:updated", "UP"}, {"servers:refreshed", "RF"}} {
+		z := zset(zk[0])
+		ms := make([]string, 0, len(z))
+		for m := range z {
+			ms = append(ms, m)
+		}
+		sortAddrs(ms)
+		for _, m := range ms {
+			out = append(out, zk[1]+","+m+","+score(z[m]))
+		}
+	}
+	known := map[string]bool{"servers:items": true, "servers:updated": true, "servers:refreshed": true,
+		"instances:items": true, "instances:updated": true, "probes:items": true, "probes:queue": true}
+	for _, bit := range statusNames {
+		k := "servers:status:" + bit
+		known[k] = true
+		if !has[k] {
+			continue
+		}
+		ms, _ := mr.SMembers(k)
+		sortAddrs(ms)
+		for _, m := range ms {
+			out = append(out, "ST,"+bit+","+m)
+		}
+	}
+	var locks []string
+	for _, k := range keys {
+		if strings.HasPrefix(k, "servers:lock:") {
+			locks = append(locks, strings.TrimPrefix(k, "servers:lock:"))
+			known[k] = true
+		}
+	}
+	sortAddrs(locks)
+	for _, a := range locks {
+		ttl := mr.TTL("servers:lock:" + a)
+		t := "nottl"
+		if ttl > 0 {
+			t = "ttl"
+		}
+		out = append(out, "LK,"+a+","+t)
+	}
+	// instances
+	ins := hash("instances:items")
+	ids := make([]string, 0, len(ins))
+	for f := range ins {
+		ids = append(ids, f)
+	}
+	sort.Strings(ids)
+	for _, f := range ids {
+		var si struct {
+			ID   [4]byte `json:"id"`
+			IP   net.IP  `json:"ip"`
+			Port int     `json:"port"`
+		}
+		if err := json.Unmarshal([]byte(ins[f]), &si); err != nil {
+			out = append(out, "IN,"+f+",undecodable")
+			continue
+		}
+		out = append(out, fmt.Sprintf("IN,%s,%s:%d", f, si.IP.String(), si.Port))
+	}
+	iu := zset("instances:updated")
+	ids = ids[:0]
+	for f := range iu {
+		ids = append(ids, f)
+	}
+	sort.Strings(ids)
+	for _, f := range ids {
+		out = append(out, "IU,"+f+","+score(iu[f]))
+	}
+	// probes
 	type pi struct {
-		id, payload string
-		score       float64
-		hasScore    bool
+		payload  string
+		score    float64
+		hasScore bool
 	}
 	var pis []pi
-	pitems := map[string]string{}
-	pqueue := map[string]float64{}
-	for _, k := range keys {
-		switch {
-		case k == "servers:items":
-			h := hash(k)
-			for _, f := range sorted(h) {
-				var s server.Server
-				if err := json.Unmarshal([]byte(h[f]), &s); err != nil {
-					out = append(out, "SV,"+f+",undecodable")
-					continue
-				}
-				out = append(out, fmt.Sprintf("SV,%s,%d,%d,%d,%s,%s,%s", f, s.QueryPort, int(s.DiscoveryStatus), s.Version,
-					canon.Time(s.RefreshedAt), canon.Of(s.Info), canon.Of(s.Details)))
-				if s.Addr.String() != f {
-					out = append(out, "SV-KEY-MISMATCH,"+f+","+s.Addr.String())
-				}
-			}
-		case k == "servers:updated" || k == "servers:refreshed" || k == "instances:updated":
-			tag := map[string]string{"servers:updated": "UP", "servers:refreshed": "RF", "instances:updated": "IU"}[k]
-			z := zset(k)
-			ms := make([]string, 0, len(z))
-			for m := range z {
-				ms = append(ms, m)
-			}
-			sort.Strings(ms)
-			for _, m := range ms {
-				out = append(out, tag+","+m+","+score(z[m]))
-			}
-		case strings.HasPrefix(k, "servers:status:"):
-			ms, _ := mr.SMembers(k)
-			sort.Strings(ms)
-			for _, m := range ms {
-				out = append(out, "ST,"+strings.TrimPrefix(k, "servers:status:")+","+m)
-			}
-		case strings.HasPrefix(k, "servers:lock:"):
-			ttl := mr.TTL(k)
-			t := "nottl"
-			if ttl > 0 {
-				t = strconv.FormatInt(ttl.Milliseconds(), 10)
-			}
-			out = append(out, "LK,"+strings.TrimPrefix(k, "servers:lock:")+","+t)
-		case k == "instances:items":
-			h := hash(k)
-			for _, f := range sorted(h) {
-				var si struct {
-					ID   [4]byte `json:"id"`
-					IP   net.IP  `json:"ip"`
-					Port int     `json:"port"`
-				}
-				if err := json.Unmarshal([]byte(h[f]), &si); err != nil {
-					out = append(out, "IN,"+f+",undecodable")
-					continue
-				}
-				out = append(out, fmt.Sprintf("IN,%s,%s:%d", f, si.IP.String(), si.Port))
-			}
-		case k == "probes:items":
-			pitems = hash(k)
-		case k == "probes:queue":
-			pqueue = zset(k)
-		default:
-			out = append(out, "XX,"+k)
-		}
-	}
+	pitems := hash("probes:items")
+	pqueue := zset("probes:queue")
 	for id, raw := range pitems {
 		var it struct {
 			Probe   probe.Probe `json:"probe"`
@@ -297,11 +364,11 @@ func (w *World) Dump() []string {
 			payload = fmt.Sprintf("%s,%d,%d,%d,%d,%s", it.Probe.Addr.String(), it.Probe.Port, int(it.Probe.Goal), it.Probe.Retries, it.Probe.MaxRetries, canon.Time(it.Expires))
 		}
 		s, ok := pqueue[id]
-		pis = append(pis, pi{id: id, payload: payload, score: s, hasScore: ok})
+		pis = append(pis, pi{payload: payload, score: s, hasScore: ok})
 	}
 	for id, s := range pqueue {
 		if _, ok := pitems[id]; !ok {
-			pis = append(pis, pi{id: id, payload: "", score: s, hasScore: true})
+			pis = append(pis, pi{payload: "", score: s, hasScore: true})
 		}
 	}
 	sort.Slice(pis, func(i, j int) bool {
@@ -320,6 +387,11 @@ func (w *World) Dump() []string {
 		}
 		if x.hasScore {
 			out = append(out, fmt.Sprintf("PQ,%d,%s", n, score(x.score)))
+		}
+	}
+	for _, k := range keys {
+		if !known[k] {
+			out = append(out, "XX,"+k)
 		}
 	}
 	return out
